@@ -107,7 +107,8 @@ def _symmetric(mat):
 
 def gen_pomdp(rng, nmax=5, amax=3, omax=4, gamma=None, min_states=2, zero_entries=True,
               nonpos=False, goal=True, absorbing_selfloop=.7, tiny=0.0, near_twin=0.0, big_rewards=0.0,
-              force_reachable=True, ghosts=0.0, state_actions=0.0, nondyadic=0.0, tiny_trans=0.0, tiny_init=0.0):
+              force_reachable=True, ghosts=0.0, state_actions=0.0, nondyadic=0.0, tiny_trans=0.0, tiny_init=0.0,
+              many_absorbing=0.0):
     """All of the following are OPT-IN (default off; when off they consume no randomness, so the
     default stream of cases is stable for every property that shares this generator):
     tiny        probability that the POMDP gets very rare (2^-30 / 2^-40) observation entries (obs_tiny)
@@ -120,6 +121,8 @@ def gen_pomdp(rng, nmax=5, amax=3, omax=4, gamma=None, min_states=2, zero_entrie
                 msdm gets differ from the rationals the model gets by ~1e-16 relative
     tiny_trans  probability of transition branches of probability 2^-30 / 2^-40 / 2^-50 (trans_tiny =
                 [[s, a, ns, k], ...]), half of them carrying a reward of size 2^k (contribution O(1))
+    many_absorbing probability that 2 .. n-1 states (instead of at most n/2) are absorbing, so that beliefs can
+                spread their whole mass over three or four absorbing states
     tiny_init   probability that the initial distribution has an entry 2^-30 (init_tiny = [s])
     ghosts      probability that kernels LIST outcomes that are never possible, with explicit probability 0:
                 obs_ghost = [ids >= nO]: observations listed with "0" in some observation rows and positive
@@ -137,7 +140,7 @@ def gen_pomdp(rng, nmax=5, amax=3, omax=4, gamma=None, min_states=2, zero_entrie
                 state list is given explicitly)"""
     while True:
         case = _gen_once(rng, nmax, amax, omax, gamma, min_states, zero_entries, nonpos, goal, absorbing_selfloop,
-                         force_reachable, state_actions, nondyadic)
+                         force_reachable, state_actions, nondyadic, many_absorbing)
         if case is not None:
             case["obs_tiny"] = []
             if tiny and rng.random() < tiny:
@@ -267,7 +270,7 @@ def _add_tiny(rng, case, omax):
 
 
 def _gen_once(rng, nmax, amax, omax, gamma, min_states, zero_entries, nonpos, goal, absorbing_selfloop,
-              force_reachable=True, state_actions=0.0, nondyadic=0.0):
+              force_reachable=True, state_actions=0.0, nondyadic=0.0, many_absorbing=0.0):
     nd = bool(nondyadic) and rng.random() < nondyadic
     den = (lambda: rng.choice([3, 7, 10, 10])) if nd else None
     n = rng.randint(min_states, nmax)
@@ -278,6 +281,10 @@ def _gen_once(rng, nmax, amax, omax, gamma, min_states, zero_entries, nonpos, go
     absorbing = [False] * n
     if goal and rng.random() < .8:
         for s in rng.sample(range(n), rng.randint(1, max(1, n // 2))):
+            absorbing[s] = True
+    if many_absorbing and n >= 3 and rng.random() < many_absorbing:
+        absorbing = [False] * n
+        for s in rng.sample(range(n), rng.randint(2, n - 1)):
             absorbing[s] = True
     if all(absorbing):
         absorbing[rng.randrange(n)] = False
@@ -428,13 +435,22 @@ def bayes_exact(P, Ob, b, a, o):
     return [w / Z for w in W]
 
 
+def lr_float_sum(xs):
+    """plain left-to-right double accumulation (Python >= 3.12's built-in sum() is compensated and hides the
+    off-by-an-ulp totals this is used to look for)"""
+    acc = 0.0
+    for x in xs:
+        acc += float(x)
+    return acc
+
+
 def _composition(rng, total, parts):
     """random composition of `total` into `parts` non-negative integers"""
     cuts = sorted(rng.randint(0, total) for _ in range(parts - 1))
     return [b - a for a, b in zip([0] + cuts, cuts + [total])]
 
 
-def gen_beliefs(rng, case, n_grid=3, n_reach=3, tiny=False, nondyadic=False):
+def gen_beliefs(rng, case, n_grid=3, n_reach=3, tiny=False, nondyadic=False, absorbing_nd=False):
     """beliefs over states 0..n-1 as {"kind", "b": ["n/d"]*n, "dyadic": bool, "sparse": bool}:
     all vertices, faces (two-state beliefs), grid points k/8 with zero components, an interior
     grid point, beliefs with a tiny component 2^-30 (dyadic, so exact in floats), the initial distribution, beliefs supported on absorbing states (and one leaking
@@ -466,6 +482,19 @@ def gen_beliefs(rng, case, n_grid=3, n_reach=3, tiny=False, nondyadic=False):
     if len(A) >= 2:
         ks = _composition(rng, 8 - len(A), len(A))
         add("absorbing-face", [F(1 + ks[A.index(s)], 8) if s in A else F(0) for s in range(n)])
+    # whole mass on several absorbing states, in tenths / sevenths / thirds / ninths (opt-in): the float components,
+    # summed in state order, preferably do NOT add up to exactly 1.0 (0.1 + 0.7 + 0.2 = 0.9999999999999999)
+    if absorbing_nd and len(A) >= 2:
+        for d in (10, 7, 9, 3):
+            if d < len(A):
+                continue
+            b = None
+            for _ in range(20):
+                ks = _composition(rng, d - len(A), len(A))
+                b = [F(1 + ks[A.index(s)], d) if s in A else F(0) for s in range(n)]
+                if lr_float_sum(b) != 1.0:
+                    break
+            add("absorbing-nd", b)
     if A and len(A) < n:
         s0 = rng.choice([s for s in range(n) if not absf[s]])
         add("absorbing-leak", [F(7, 8) if s == A[0] else F(1, 8) if s == s0 else F(0) for s in range(n)])
@@ -517,6 +546,7 @@ def features(case):
         "enters_state_without_the_action_taken": any(
             a not in case["actions"][ns] for s in range(case["n"]) for a in case["actions"][s]
             for ns, p in case["trans"]["%d,%d" % (s, a)] if F(p) > 0 and ns < case["n"]),
+        "absorbing_states_ge_3": sum(case["absorbing"]) >= 3, "absorbing_states_ge_2": sum(case["absorbing"]) >= 2,
         "nondyadic": bool(case.get("nondyadic")), "trans_tiny": bool(case.get("trans_tiny")),
         "trans_tiny_with_large_reward": any("%d,%d,%d" % (s, a, ns) in case["reward"] for s, a, ns, k in case.get("trans_tiny", [])),
         "init_tiny": bool(case.get("init_tiny")),
